@@ -132,6 +132,30 @@ class World:
         self.mgrs[mid] = m
         return m
 
+    def DM(self, probes: bool = False):
+        """__exit__ deletes its own `self` local before anything else: the frame's first argument cannot be read back."""
+        w = self
+        mid = self.next_id
+        self.next_id += 1
+
+        class DMgr:
+            def __enter__(s):
+                w.log.append(("enter_start", mid))
+                w.log.append(("entered", mid))
+                return [s, 1, 2]
+
+            def __exit__(s, et, ev, tb):
+                del s
+                w.log.append(("exit_start", mid))
+                if probes:
+                    w.observer(w, f"in __exit__ of {mid}")
+                w.log.append(("exit_end", mid))
+                return False
+
+        m = DMgr()
+        self.mgrs[mid] = m
+        return m
+
     def CM(self, probes: bool = False):
         """A generator-based manager (contextlib.contextmanager)."""
         import contextlib
@@ -272,7 +296,48 @@ class Gen:
         out: List[str] = []
         for _ in range(n):
             out += self.stmt(depth, ind)
+        if self.rng.random() < 0.16:
+            # an unconditional way out as the last statement of the block (nothing falls through it)
+            opts = ["raise Boom()", "return" if self.kind == "agen" else self.rng.choice(["return", "return 3", "return W.f()"])]
+            if self.in_loop:
+                opts += ["break", "continue"]
+            out.append(ind + self.rng.choice(opts))
         return out
+
+    def terminator(self) -> str:
+        opts = ["raise Boom()", "return" if self.kind == "agen" else self.rng.choice(["return", "return 3", "return W.f()"])]
+        if self.in_loop:
+            opts += ["break", "continue"]
+        return self.rng.choice(opts)
+
+    def shaped_tail(self, depth: int, ind: str) -> List[str]:
+        """The last statement of a with body: a compound statement whose final branch does not fall through (often ending
+        in a nested with whose body ends in raise/return/...).  The compiler then drops that branch's dead normal exit, so
+        an unconditional transfer sits right in front of the enclosing with's exit sequence — the layouts on which
+        identifying the exiting block is hardest."""
+        rng = self.rng
+        self.budget -= 2
+        i2 = ind + "    "
+
+        def leaving(i):
+            if rng.random() < 0.6:
+                is_async = self.kind in ("coro", "agen") and rng.random() < 0.4
+                ctor = ("W.AM(%s)" if is_async else "W.M(%s)") % ("True" if self.probes else "")
+                t = rng.choice(TARGETS)
+                head = i + ("async with " if is_async else "with ") + ctor + (f" as {t}" if t else "") + ":"
+                inner = self.susp(i + "    ") if rng.random() < 0.4 else [i + "    pad = 3"]
+                return [head] + inner + [i + "    " + self.terminator()]
+            return [i + self.terminator()]
+
+        first = self.susp(i2) if rng.random() < 0.5 else [i2 + "pad = 4"]
+        shape = rng.choice(["ifelse", "match", "tryexcept", "ifelse"])
+        if shape == "ifelse":
+            return [ind + "if W.ch():"] + first + [ind + "else:"] + leaving(i2)
+        if shape == "match":
+            i3 = i2 + "    "
+            f3 = [("    " + l) for l in first]
+            return [ind + "match W.ch(3):", i2 + "case 0:"] + f3 + [i2 + "case 1:"] + [("    " + l) for l in first] + [i2 + "case _:"] + leaving(i3)
+        return [ind + "try:"] + first + [i2 + "if W.ch(): raise Boom()"] + [ind + "except Boom:"] + leaving(i2)
 
     def stmt(self, depth: int, ind: str) -> List[str]:
         r = self.rng.random()
@@ -307,10 +372,13 @@ class Gen:
                 t = rng.choice(TARGETS)
                 ctor = ("W.AM(%s)" if is_async else "W.M(%s)") % ("True" if self.probes else "")
                 if self.odd and rng.random() < 0.35:
-                    ctor = (rng.choice(["W.ACM(%s)"]) if is_async else rng.choice(["W.SM(%s)", "W.CM(%s)", "W.ES(%s)"])) % ("True" if self.probes else "")
+                    ctor = (rng.choice(["W.ACM(%s)"]) if is_async else rng.choice(["W.SM(%s)", "W.CM(%s)", "W.ES(%s)", "W.DM(%s)"])) % ("True" if self.probes else "")
                 items.append(ctor + (f" as {t}" if t else ""))
             head = ind + ("async with " if is_async else "with ") + ", ".join(items) + ":"
-            return [head] + self.block(depth - 1, ind + "    ")
+            body = self.block(depth - 1, ind + "    ")
+            if rng.random() < 0.3 and self.budget > 0:
+                body += self.shaped_tail(depth - 1, ind + "    ")
+            return [head] + body
         if r < 0.72:
             out = [ind + "try:"] + self.block(depth - 1, ind + "    ")
             style = rng.choice(["except", "finally", "both", "except_else"])
